@@ -146,6 +146,8 @@ def run_stream(harness, prop, tier, seed, extra_args=()):
             c["tags"] = m.get("tags", [])
             if "arity" in m:
                 c["arity"] = m["arity"]
+            if "types" in m:
+                c["types"] = m["types"]
             out.append(c)
     cases.unlink()
     model.unlink()
